@@ -103,3 +103,243 @@ void h_year_month(void) { VF_INPUT(short, y); VF_INPUT(unsigned, m); VF_INPUT(un
   if ((int)y + dy >= -32767 && (int)y + dy <= 32767) { ym_plus_years(y, m, dy, &yo, &mo); VF_ASSERT(yo == y + dy && mo == m, "year_month + years");
     ymd_plus_years(y, m, d, dy, &yo, &mo, &d_o); VF_ASSERT(yo == y + dy && mo == m && d_o == d, "year_month_day + years"); }
   VF_REACH(); }
+
+/*@COMMON@*/
+/* ---- every mutating / binary operator of the civil classes, read back through EVERY accessor --------------------------------
+ * Reference ([time.cal.ym.nonmembers] "z.ok() && z - ym == dm", [time.cal.ymd.*], [time.cal.ymdlast.*], [time.cal.ymwd.*]), stated as
+ * the defining RELATION (no division): the result (ry, rm) of adding dm months to (y, m) is the unique pair with 1 <= rm <= 12 and
+ * 12*ry + (rm-1) == 12*y + (m-1) + dm; years move the year field only; day / weekday / index fields are carried unchanged;
+ * year_month_day_last::day() is ALWAYS the last day of its CURRENT year/month. Once the relation is established for the accessors
+ * (asserted, then assumed as a cut) the derived facts (ok(), day(), conversions) are stated over those values.
+ * Objects are arbitrary field values fed through the class's (field-storing) constructor; operator codes: see driver.cpp.
+ * Each harness exists twice: a quick one over a window of years / deltas (kind B) and a thorough one over the full domain (kind F);
+ * there AWIN is implied by "operands and result inside the year range" (at most 65534*12+11 months apart): it is not a bound. */
+#define AWIN(a) ((a) >= -800000 && (a) <= 800000)
+#define QWIN(a) ((a) >= -1200 && (a) <= 1200)
+#define QYEAR(y) ((y) >= -4000 && (y) <= 4000)
+#define TIN(t) ((t) >= -32767 * 12 && (t) <= 32767 * 12 + 11)          /* linear month count of a year_month inside the year range */
+static int s_dm(unsigned op, int a) { return op == 0 ? a : op == 1 ? -a : op == 2 ? 12 * a : op == 3 ? -12 * a : 0; }   /* 0 += months 1 -= months 2 += years 3 -= years */
+static _Bool s_is(int t, int ry, int rm) { return rm >= 1 && rm <= 12 && 12 * ry + rm - 1 == t; }                      /* (ry, rm) is the year_month with linear month count t */
+/* (ry, rm) is the result of compound operator op with argument a on (y, m) */
+static _Bool s_res(int y, int m, unsigned op, int a, int ry, int rm) { return op == 2 ? (ry == y + a && rm == m) : op == 3 ? (ry == y - a && rm == m) : s_is(12 * y + m - 1 + (op == 0 ? a : -a), ry, rm); }
+static unsigned s_binop(unsigned form) { return form <= 1 ? 0u : form == 2 ? 1u : form <= 4 ? 2u : 3u; }   /* binary form -> compound code */
+/* x op1= a1; x op2= a2 from an arbitrary valid year/month part; both intermediate results inside the year range */
+#define SEQ_INPUTS(WIN) VF_INPUT(short, y); VF_INPUT(unsigned char, m); VF_INPUT(unsigned char, op1); VF_INPUT(unsigned char, op2); VF_INPUT(int, a1); VF_INPUT(int, a2); \
+  __CPROVER_assume(y != -32768 && m >= 1 && m <= 12 && op1 <= 3 && op2 <= 3 && AWIN(a1) && AWIN(a2) && (WIN)); \
+  int t1 = 12 * y + (int)m - 1 + s_dm(op1, a1); __CPROVER_assume(TIN(t1)); int t2 = t1 + s_dm(op2, a2); __CPROVER_assume(TIN(t2)); \
+  int p[12] = {0}, o[12] = {0}
+#define SEQ_QUICK (QYEAR(y) && QWIN(a1) && QWIN(a2))
+#define BIN_INPUTS(WIN) VF_INPUT(short, y); VF_INPUT(unsigned char, m); VF_INPUT(unsigned char, f); VF_INPUT(int, a); \
+  __CPROVER_assume(y != -32768 && m >= 1 && m <= 12 && f <= 5 && AWIN(a) && (WIN)); \
+  int t = 12 * y + (int)m - 1 + s_dm(s_binop(f), a); __CPROVER_assume(TIN(t)); \
+  int o[12] = {0}
+#define BIN_QUICK (QYEAR(y) && QWIN(a))
+
+#define BODY_COMPOUND_YM \
+  ym_cseq(y, m, op1, a1, op2, a2, p, o); \
+  VF_ASSERT(s_res(y, m, op1, a1, p[0], p[1]), "year_month: x op= a for every compound operator (+=/-= months, +=/-= years): year() and month()"); \
+  VF_ASSERT(p[2] == 1 && p[11] == 1, "year_month: ok() after a compound operator that stays inside the year range; the operator returns *this"); \
+  __CPROVER_assume(s_res(y, m, op1, a1, p[0], p[1]));   /* cut: proved just above */ \
+  VF_ASSERT(s_res(p[0], p[1], op2, a2, o[0], o[1]), "year_month: a SECOND compound operator applied to the result of the first: year() and month()"); \
+  VF_ASSERT(o[2] == 1 && o[11] == 1, "year_month: ok() / returned reference after the second compound operator")
+
+#define BODY_COMPOUND_YMD(DAYS) \
+  ymd_cseq(y, m, d, op1, a1, op2, a2, DAYS, p, o); \
+  VF_ASSERT(s_res(y, m, op1, a1, p[0], p[1]) && p[2] == (int)d, "year_month_day: x op= a for every compound operator: year()/month(), day() kept"); \
+  __CPROVER_assume(s_res(y, m, op1, a1, p[0], p[1])); \
+  VF_ASSERT(p[3] == s_exists(p[0], (unsigned)p[1], d) && p[11] == 1, "year_month_day: ok() after a compound operator is true exactly if the resulting date exists (Jan 31 += 1 month does not); returns *this"); \
+  VF_ASSERT(s_res(p[0], p[1], op2, a2, o[0], o[1]) && o[2] == (int)d, "year_month_day: a SECOND compound operator applied to the result of the first: year()/month()/day()"); \
+  __CPROVER_assume(s_res(p[0], p[1], op2, a2, o[0], o[1])); \
+  VF_ASSERT(o[3] == s_exists(o[0], (unsigned)o[1], d) && o[11] == 1, "year_month_day: ok() / returned reference after the second compound operator"); \
+  if ((DAYS) && s_exists(o[0], (unsigned)o[1], d)) VF_ASSERT(o[4] == days_from_ymd(o[0], (unsigned)o[1], d) && o[5] == o[4], "year_month_day: sys_days / local_days after two compound operators are those of the civil date read back (days_from_civil: group days_from_civil)")
+
+#define BODY_COMPOUND_YMDL(DAYS) \
+  ymdl_cseq(y, m, op1, a1, op2, a2, DAYS, p, o); \
+  VF_ASSERT(s_res(y, m, op1, a1, p[0], p[1]) && p[4] == p[1], "year_month_day_last: x op= a for every compound operator: year(), month(), month_day_last().month()"); \
+  __CPROVER_assume(s_res(y, m, op1, a1, p[0], p[1])); \
+  VF_ASSERT(p[2] == (int)s_last(p[0], (unsigned)p[1]), "year_month_day_last: day() after a compound operator is the last day of the NEW year/month (leap rule of the new year)"); \
+  VF_ASSERT(p[3] == 1 && p[5] == 1 && p[11] == 1, "year_month_day_last: ok() after a compound operator; returns *this"); \
+  VF_ASSERT(p[6] == p[0] && p[7] == p[1] && p[8] == (int)s_last(p[0], (unsigned)p[1]) && p[9] == 1, "year_month_day{year_month_day_last} after a compound operator is the existing date y/m/last"); \
+  VF_ASSERT(s_res(p[0], p[1], op2, a2, o[0], o[1]) && o[4] == o[1], "year_month_day_last: a SECOND compound operator applied to the result of the first: year(), month()"); \
+  __CPROVER_assume(s_res(p[0], p[1], op2, a2, o[0], o[1])); \
+  VF_ASSERT(o[2] == (int)s_last(o[0], (unsigned)o[1]), "year_month_day_last: day() after the second compound operator is the last day of the final year/month"); \
+  VF_ASSERT(o[3] == 1 && o[5] == 1 && o[11] == 1, "year_month_day_last: ok() / returned reference after the second compound operator"); \
+  _Bool conv = o[6] == o[0] && o[7] == o[1] && o[8] == (int)s_last(o[0], (unsigned)o[1]); \
+  VF_ASSERT(conv && o[9] == 1, "year_month_day{year_month_day_last} after the second compound operator"); \
+  __CPROVER_assume(conv); \
+  if (DAYS) VF_ASSERT(o[10] == days_from_ymd(o[0], (unsigned)o[1], s_last(o[0], (unsigned)o[1])), "sys_days{year_month_day{year_month_day_last}} after two compound operators is that of y/m/last as read back")
+
+#define BODY_BINARY_YM_YMD(DAYS) \
+  ym_bin(y, m, f, a, o); \
+  VF_ASSERT(s_res(y, m, s_binop(f), a, o[0], o[1]) && o[2] == 1, "year_month: x + months, months + x, x - months, x + years, years + x, x - years"); \
+  ymd_bin(y, m, d, f, a, DAYS, o); \
+  VF_ASSERT(s_res(y, m, s_binop(f), a, o[0], o[1]) && o[2] == (int)d, "year_month_day: all six binary +/- forms: year()/month(), day() kept"); \
+  __CPROVER_assume(s_res(y, m, s_binop(f), a, o[0], o[1])); \
+  VF_ASSERT(o[3] == s_exists(o[0], (unsigned)o[1], d), "year_month_day: ok() of the sum is true exactly if that date exists"); \
+  if ((DAYS) && s_exists(o[0], (unsigned)o[1], d)) VF_ASSERT(o[4] == days_from_ymd(o[0], (unsigned)o[1], d) && o[5] == o[4], "year_month_day: sys_days / local_days of the sum are those of the civil date read back")
+
+#define BODY_BINARY_YMDL(DAYS) \
+  ymdl_bin(y, m, f, a, DAYS, o); \
+  VF_ASSERT(s_res(y, m, s_binop(f), a, o[0], o[1]) && o[4] == o[1], "year_month_day_last: x + months, months + x, x - months, x + years, years + x, x - years: year(), month(), month_day_last()"); \
+  __CPROVER_assume(s_res(y, m, s_binop(f), a, o[0], o[1])); \
+  VF_ASSERT(o[2] == (int)s_last(o[0], (unsigned)o[1]) && o[3] == 1 && o[5] == 1, "year_month_day_last: day() of the sum is the last day of the new year/month; ok()"); \
+  _Bool conv = o[6] == o[0] && o[7] == o[1] && o[8] == (int)s_last(o[0], (unsigned)o[1]); \
+  VF_ASSERT(conv && o[9] == 1, "year_month_day{year_month_day_last} of the sum is the existing date y/m/last"); \
+  __CPROVER_assume(conv); \
+  if (DAYS) VF_ASSERT(o[10] == days_from_ymd(o[0], (unsigned)o[1], s_last(o[0], (unsigned)o[1])), "sys_days of the sum is that of y/m/last as read back")
+
+#define BODY_BINARY_YMW \
+  unsigned w0 = w == 7 ? 0 : w; \
+  ymw_bin(y, m, w, i, f, a, o); \
+  VF_ASSERT(s_res(y, m, s_binop(f), a, o[0], o[1]), "year_month_weekday: x + months, months + x, x - months, x + years, years + x, x - years: year(), month()"); \
+  VF_ASSERT(o[2] == (int)w0 && o[3] == (int)i && o[4] == (int)w0 && o[5] == (int)i, "year_month_weekday: weekday(), index(), weekday_indexed() are carried unchanged"); \
+  if (i >= 1 && i <= 4) VF_ASSERT(o[6] == (w0 <= 6), "year_month_weekday: ok() of the sum for index 1..4 (every month has four of every weekday)"); \
+  if (i == 0 || i >= 6) VF_ASSERT(o[6] == 0, "year_month_weekday: ok() of the sum is false for index 0 and index >= 6")
+
+/*@GROUP name=compound_ym props=C11,C02 kind=B bound=|year|<=4000,|delta|<=1200 solver=kissat cost=3@*/
+void h_compound_ym(void) { SEQ_INPUTS(SEQ_QUICK); BODY_COMPOUND_YM; VF_REACH(); }
+/*@GROUP name=compound_ymd props=C11,C02 kind=B bound=|year|<=4000,|delta|<=1200 solver=kissat cost=3@*/
+void h_compound_ymd(void) { SEQ_INPUTS(SEQ_QUICK); VF_INPUT(unsigned char, d); __CPROVER_assume(d <= 254); BODY_COMPOUND_YMD(1); VF_REACH(); }
+/*@GROUP name=compound_ymdl props=C11,C02 kind=B bound=|year|<=4000,|delta|<=1200 solver=kissat cost=3@*/
+void h_compound_ymdl(void) { SEQ_INPUTS(SEQ_QUICK); BODY_COMPOUND_YMDL(1); VF_REACH(); }
+/*@GROUP name=binary_ym_ymd props=C11,C02 kind=B bound=|year|<=4000,|delta|<=1200 solver=kissat cost=3@*/
+void h_binary_ym_ymd(void) { BIN_INPUTS(BIN_QUICK); VF_INPUT(unsigned char, d); __CPROVER_assume(d <= 254); BODY_BINARY_YM_YMD(1); VF_REACH(); }
+/*@GROUP name=binary_ymdl props=C11,C02 kind=B bound=|year|<=4000,|delta|<=1200 solver=kissat cost=3@*/
+void h_binary_ymdl(void) { BIN_INPUTS(BIN_QUICK); BODY_BINARY_YMDL(1); VF_REACH(); }
+/*@GROUP name=binary_ymw props=C11,C02 kind=B bound=|year|<=4000,|delta|<=1200 solver=kissat cost=3@*/
+void h_binary_ymw(void) { BIN_INPUTS(BIN_QUICK); VF_INPUT(unsigned char, w); VF_INPUT(unsigned char, i); BODY_BINARY_YMW; VF_REACH(); }
+
+/*@GROUP name=compound_ym_full props=C11,C02 kind=F solver=kissat tier=thorough timeout=1800 cost=6@*/
+void h_compound_ym_full(void) { SEQ_INPUTS(1); BODY_COMPOUND_YM; VF_REACH(); }
+/*@GROUP name=compound_ymd_full props=C11,C02 kind=F solver=kissat tier=thorough timeout=1800 cost=8@*/
+void h_compound_ymd_full(void) { SEQ_INPUTS(1); VF_INPUT(unsigned char, d); __CPROVER_assume(d <= 254); BODY_COMPOUND_YMD(1); VF_REACH(); }
+/*@GROUP name=compound_ymdl_full props=C11,C02 kind=F solver=kissat tier=thorough timeout=1800 cost=8@*/
+void h_compound_ymdl_full(void) { SEQ_INPUTS(1); BODY_COMPOUND_YMDL(1); VF_REACH(); }
+/*@GROUP name=binary_ym_ymd_full props=C11,C02 kind=F solver=kissat tier=thorough timeout=1800 cost=6@*/
+void h_binary_ym_ymd_full(void) { BIN_INPUTS(1); VF_INPUT(unsigned char, d); __CPROVER_assume(d <= 254); BODY_BINARY_YM_YMD(1); VF_REACH(); }
+/*@GROUP name=binary_ymdl_full props=C11,C02 kind=F solver=kissat tier=thorough timeout=1800 cost=6@*/
+void h_binary_ymdl_full(void) { BIN_INPUTS(1); BODY_BINARY_YMDL(1); VF_REACH(); }
+/*@GROUP name=binary_ymw_full props=C11,C02 kind=F solver=kissat tier=thorough timeout=1800 cost=6@*/
+void h_binary_ymw_full(void) { BIN_INPUTS(1); VF_INPUT(unsigned char, w); VF_INPUT(unsigned char, i); BODY_BINARY_YMW; VF_REACH(); }
+
+/*@COMMON@*/
+/* ---- ok() of every calendar class from the proleptic Gregorian rules; the weekday forms -------------------------------------------
+ * A year is ok unless it is -32768, a month in 1..12, a day in 1..31, a weekday in 0..6 (weekday(7) IS Sunday), an index in 1..5.
+ * The i-th weekday w0 of a month whose first day is weekday w1 falls on day 1 + ((w0 - w1) mod 7) + 7*(i-1); year_month_weekday is ok
+ * exactly if that day exists in the month. w1 comes from the day count of the family's Gregorian reference spec_days (1970-01-01, a
+ * Thursday, is day 0). */
+static unsigned s_nth(unsigned w0, unsigned w1, unsigned i) { return 1u + (w0 + 7u - w1) % 7u + 7u * (i - 1u); }
+static unsigned s_wd0(unsigned w) { return w == 7 ? 0u : w; }
+
+/*@GROUP name=steps props=C11,C02 kind=F solver=kissat@*/
+/* ++x, x++, --x, x--, x += a, x -= a (and unary -/+ of year): value afterwards, VALUE OF THE EXPRESSION (postfix: the old value), the
+ * prefix / compound forms return *this, ok() afterwards; plus the commuted binary forms duration + x. */
+void h_steps(void) { VF_INPUT(short, y); VF_INPUT(unsigned char, m); VF_INPUT(unsigned char, d); VF_INPUT(unsigned char, w); VF_INPUT(unsigned char, op); VF_INPUT(int, a);
+  __CPROVER_assume(a >= -70000 && a <= 70000); int o[4] = {0};
+  { __CPROVER_assume(op <= 7 && y != -32768);
+    int ny = op == 0 || op == 1 ? y + 1 : op == 2 || op == 3 ? y - 1 : op == 4 ? y + a : op == 5 ? y - a : y;
+    int ex = op == 1 || op == 3 || op == 7 ? y : op == 6 ? -y : ny;
+    if (ny >= -32767 && ny <= 32767) { year_step(y, op, a, o);
+      VF_ASSERT(o[0] == ny && o[3] == 1, "year: ++ -- += -= (prefix and postfix) change the year by exactly +-1 / +-a; unary - and + leave it alone; ok()");
+      VF_ASSERT(o[1] == ex, "year: value of the expression: prefix/compound the new year, postfix the OLD year, -y the negated year, +y the year");
+      VF_ASSERT(o[2] == 1, "year: prefix and compound operators return *this");
+      if (op == 4) VF_ASSERT(year_plus_c(y, a) == ny, "years + year"); } }
+  if (op <= 5 && m >= 1 && m <= 12) { int am = a; __CPROVER_assume(am >= -60000);
+    unsigned nm = op <= 1 ? m % 12u + 1u : op <= 3 ? (m + 10u) % 12u + 1u : (unsigned)fmodc((int)m - 1 + (op == 4 ? am : -am), 12, 10000) + 1u;
+    month_step(m, op, am, o);
+    VF_ASSERT(o[0] == (int)nm && o[3] == 1, "month: ++ -- += -= (prefix and postfix) are modulo-12 arithmetic on 1..12; the result is ok()");
+    VF_ASSERT(o[1] == (int)(op == 1 || op == 3 ? m : nm), "month: value of the expression: prefix/compound the new month, postfix the OLD month");
+    VF_ASSERT(o[2] == 1, "month: prefix and compound operators return *this");
+    if (op == 4) VF_ASSERT(month_plus_c(m, am) == nm, "months + month"); }
+  if (op <= 5 && d <= 254) { int nd = op <= 1 ? d + 1 : op <= 3 ? d - 1 : op == 4 ? d + a : d - a;
+    if (nd >= 0 && nd <= 254) { day_step(d, op, a, o);
+      VF_ASSERT(o[0] == nd && o[3] == (nd >= 1 && nd <= 31), "day: ++ -- += -= (prefix and postfix) change the day by exactly +-1 / +-a (while representable); ok() iff 1..31");
+      VF_ASSERT(o[1] == (op == 1 || op == 3 ? (int)d : nd), "day: value of the expression: prefix/compound the new day, postfix the OLD day");
+      VF_ASSERT(o[2] == 1, "day: prefix and compound operators return *this");
+      if (op == 4 && d <= 254) VF_ASSERT(day_plus_c(d, a) == (unsigned)nd, "days + day"); } }
+  if (op <= 5 && w <= 7) { unsigned w0 = s_wd0(w);
+    unsigned nw = op <= 1 ? (w0 + 1u) % 7u : op <= 3 ? (w0 + 6u) % 7u : (unsigned)fmodc((int)w0 + (op == 4 ? a : -a), 7, 20000);
+    weekday_step(w, op, a, o);
+    VF_ASSERT(o[0] == (int)nw && o[3] == 1, "weekday: ++ -- += -= (prefix and postfix) are modulo-7 arithmetic; the result is ok()");
+    VF_ASSERT(o[2] == 1, "weekday: prefix and compound operators return *this");
+    if (op != 1 && op != 3) VF_ASSERT(o[1] == (int)nw, "weekday: value of a prefix / compound expression is the new weekday");
+    else if (VF_KNOWN_GUARD(C11_weekday_postfix_returns_new, op == 1 || op == 3)) VF_ASSERT(o[1] == (int)w0, "weekday: value of a POSTFIX expression (wd++, wd--) is the OLD weekday [time.cal.wd.members]");
+    if (op == 4) VF_ASSERT(wd_plus_c(w, a) == nw, "days + weekday"); }
+  VF_REACH(); }
+
+/*@GROUP name=ok_all props=C11,C02 kind=F solver=kissat@*/
+void h_ok_all(void) { VF_INPUT(short, y); VF_INPUT(unsigned char, m); VF_INPUT(unsigned char, w); VF_INPUT(unsigned char, i); VF_INPUT(short, y2); VF_INPUT(unsigned char, m2); VF_INPUT(unsigned char, w2); VF_INPUT(unsigned char, i2);
+  __CPROVER_assume(m <= 254 && m2 <= 254);
+  _Bool yk = y != -32768, mk = m >= 1 && m <= 12, wk = s_wd0(w) <= 6, ik = i >= 1 && i <= 5;
+  VF_ASSERT(ym_ok(y, m) == (yk && mk), "year_month::ok() iff year and month ok");
+  VF_ASSERT(mdl_ok(m) == mk, "month_day_last::ok() iff month ok");
+  VF_ASSERT(ymdl_ok(y, m) == (yk && mk), "year_month_day_last::ok() iff year and month ok (full input domain)");
+  VF_ASSERT(wd_ok(w) == wk && wdl_ok(w) == wk, "weekday::ok() / weekday_last::ok() iff the encoding is 0..6 (7 is stored as 0)");
+  VF_ASSERT(wdi_ok(w, i) == (wk && ik), "weekday_indexed::ok() iff weekday ok and 1 <= index <= 5");
+  VF_ASSERT(mwd_ok(m, w, i) == (mk && wk && ik), "month_weekday::ok() iff month ok and weekday_indexed ok");
+  VF_ASSERT(mwdl_ok(m, w) == (mk && wk), "month_weekday_last::ok() iff month ok and weekday ok");
+  /* year_month_weekday over the full domain: everything that does not need the weekday of the first of the month (that part: group ymw_ok) */
+  int o[12] = {0}; ymw_get(y, m, w, i, o); _Bool k = o[6] != 0;
+  VF_ASSERT(o[0] == y && o[1] == m && o[2] == (int)s_wd0(w) && o[3] == i && o[4] == o[2] && o[5] == o[3], "year_month_weekday: year(), month(), weekday(), index(), weekday_indexed() return the fields");
+  if (!(yk && mk && wk && ik)) VF_ASSERT(!k, "year_month_weekday::ok() is false if any field is not ok (index 0 or > 5 included)");
+  else if (i <= 4) VF_ASSERT(k, "year_month_weekday::ok(): every month has a 1st..4th of every weekday");
+  else { if (s_last(y, m) == 28) VF_ASSERT(!k, "year_month_weekday::ok(): a 28-day February (non-leap year) has no 5th weekday of any kind");
+    /* at most last-28 weekdays occur five times: checked exactly in ymw_ok */ }
+  VF_ASSERT(ymw_eq(y, m, w, i, y2, m2, w2, i2) == (y == y2 && m == m2 && s_wd0(w) == s_wd0(w2) && i == i2), "year_month_weekday == compares every field");
+  VF_REACH(); }
+
+/*@GROUP name=ymw_ok props=C11,C02 kind=S split=ERA:-82:81 qsplit=-82,-1,4,5,81 solver=kissat cost=3@*/
+/* one cell = the 400 years [400*ERA, 400*ERA+399]; month / weekday / index over their whole byte range */
+void h_ymw_ok(void) { VF_INPUT(unsigned short, r); VF_INPUT(unsigned char, m); VF_INPUT(unsigned char, w); VF_INPUT(unsigned char, i);
+  int y = 400 * (ERA) + (int)r; __CPROVER_assume(r < 400 && y >= -32768 && y <= 32767 && m <= 254);
+  unsigned w0 = s_wd0(w); _Bool e = 0;
+  if (y != -32768 && m >= 1 && m <= 12 && w0 <= 6 && i >= 1) { unsigned w1 = (unsigned)fmodc(spec_days(y, m, 1) + 4, 7, 2000000); e = s_nth(w0, w1, i) <= s_last(y, m); }
+  VF_ASSERT(ymw_ok(y, m, w, i) == e, "year_month_weekday::ok() is true exactly if the index-th such weekday exists in that month of that year (Gregorian calendar)");
+  if (y != -32768 && m >= 1 && m <= 12) { int o[12] = {0}; ymdl_get(y, m, 1, o); int el = (int)s_last(y, m);
+    VF_ASSERT(o[0] == y && o[1] == m && o[2] == el && o[3] == 1 && o[6] == y && o[7] == m && o[8] == el && o[9] == 1, "year_month_day_last: accessors, day() and the conversion to year_month_day");
+    VF_ASSERT(o[10] == spec_days(y, m, (unsigned)el), "sys_days{year_month_day{y/m/last}} is the day count of the last day of the month"); }
+  VF_REACH(); }
+
+/*@GROUP name=slash props=C11,C02 kind=F solver=kissat objbits=12@*/
+/* every operator/ overload and weekday[] composes exactly the fields it is given (int operands are taken as month / day / year values) */
+void h_slash(void) { VF_INPUT(short, y); VF_INPUT(unsigned char, m); VF_INPUT(unsigned char, d); VF_INPUT(unsigned char, w); VF_INPUT(unsigned char, i); VF_INPUT(unsigned char, f);
+  __CPROVER_assume(m <= 254 && d <= 254 && f <= 5); int o[12] = {0}; unsigned w0 = s_wd0(w);
+  _Bool yk = y != -32768, mk = m >= 1 && m <= 12, wk = w0 <= 6, ik = i >= 1 && i <= 5;
+  if (f <= 1) { slash_ym(f, y, m, o); VF_ASSERT(o[0] == y && o[1] == m && o[2] == (yk && mk), "year/month, year/int -> year_month"); }
+  slash_ymd(f, y, m, d, o); VF_ASSERT(o[0] == y && o[1] == m && o[2] == d && o[3] == s_exists(y, m, d), "year_month/day, year_month/int, year/month_day, int/month_day, month_day/year, month_day/int -> year_month_day");
+  if (f <= 4) { slash_md(f, m, d, o); VF_ASSERT(o[0] == m && o[1] == d && o[2] == (mk && d >= 1 && d <= (m == 2 ? 29u : s_last(1, m))), "month/day, month/int, int/day, day/month, day/int -> month_day"); }
+  if (f <= 3) { slash_mdl(f, m, o); VF_ASSERT(o[0] == m && o[1] == mk, "month/last, int/last, last/month, last/int -> month_day_last");
+    slash_mwd(f, m, w, i, o); VF_ASSERT(o[0] == m && o[1] == (int)w0 && o[2] == i && o[3] == (mk && wk && ik), "month/weekday[i], int/weekday[i], weekday[i]/month, weekday[i]/int -> month_weekday");
+    slash_mwdl(f, m, w, o); VF_ASSERT(o[0] == m && o[1] == (int)w0 && o[2] == (mk && wk), "month/weekday[last], int/weekday[last], weekday[last]/month, weekday[last]/int -> month_weekday_last"); }
+  if (f <= 4 && mk) { slash_ymdl(f, y, m, o); VF_ASSERT(o[0] == y && o[1] == m && o[4] == m && o[3] == yk && o[5] == 1 && o[2] == (int)s_last(y, m), "year_month/last, year/month_day_last, int/month_day_last, month_day_last/year, month_day_last/int -> year_month_day_last"); }
+  VF_REACH(); }
+
+/*@GROUP name=ymdl_day_total props=C11,C02 kind=F solver=kissat@*/
+/* [time.cal.ymdlast.members]: day() of a year_month_day_last that is not ok() returns an UNSPECIFIED value - it is still a noexcept
+ * function without preconditions: it must not have undefined behaviour for any month value */
+void h_ymdl_day_total(void) { VF_INPUT(short, y); VF_INPUT(unsigned char, m); __CPROVER_assume(m <= 254);
+  VF_KNOWN(C11_ymdl_day_bad_month_oob, m == 0 || m > 12);
+  unsigned d = ymdl_day(y, m);
+  if (m >= 1 && m <= 12) VF_ASSERT(d == (m == 2 ? (s_leap(y) ? 29u : 28u) : s_last(1, m)), "year_month_day_last::day() for every year value (ok or not) and ok month"); else VF_ASSERT(d <= 255, "year_month_day_last::day() of a not-ok month returns some day value");
+  VF_REACH(); }
+
+/*@GROUP name=compare props=C11 kind=F solver=kissat@*/
+void h_compare(void) { VF_INPUT(short, y); VF_INPUT(unsigned char, m); VF_INPUT(unsigned char, d); VF_INPUT(unsigned char, w); VF_INPUT(unsigned char, i); VF_INPUT(short, y2); VF_INPUT(unsigned char, m2); VF_INPUT(unsigned char, d2); VF_INPUT(unsigned char, w2); VF_INPUT(unsigned char, i2);
+  __CPROVER_assume(m <= 254 && d <= 254 && m2 <= 254 && d2 <= 254);
+#define S_CMP(a, b) ((unsigned)((a) == (b)) | ((unsigned)((a) < (b)) << 1) | ((unsigned)((a) <= (b)) << 2) | ((unsigned)((a) > (b)) << 3) | ((unsigned)((a) >= (b)) << 4))
+  VF_ASSERT(year_cmp(y, y2) == S_CMP(y, y2), "year: == < <= > >= order by the signed year number");
+  VF_ASSERT(month_cmp(m, m2) == S_CMP(m, m2), "month: == < <= > >= order by the month number");
+  VF_ASSERT(day_cmp(d, d2) == S_CMP(d, d2), "day: == < <= > >= order by the day number");
+  unsigned w0 = s_wd0(w), v0 = s_wd0(w2); _Bool ey = y == y2, em = m == m2, ed = d == d2, ew = w0 == v0, ei = i == i2;
+  unsigned e = (unsigned)(ey && em) | ((unsigned)(ey && em && ed) << 1) | ((unsigned)(em && ed) << 2) | ((unsigned)em << 3) | ((unsigned)(em && ew && ei) << 4) | ((unsigned)(em && ew) << 5) | ((unsigned)ew << 6) | ((unsigned)(ew && ei) << 7) | ((unsigned)ew << 8);
+  VF_ASSERT(eq_all(y, m, d, w, i, y2, m2, d2, w2, i2) == e, "operator== of year_month, year_month_day, month_day, month_day_last, month_weekday, month_weekday_last, weekday, weekday_indexed, weekday_last compares every field (weekday(7) == weekday(0))");
+  VF_REACH(); }
+
+/*@GROUP name=era_local props=C11,C02 kind=S split=ERA:-87:76 solver=kissat timeout=600 cost=5 tier=thorough@*/
+/* the local_days constructors of year_month_day and weekday: same obligations as group era */
+void h_era_local(void) { VF_INPUT(int, z); __CPROVER_assume(z >= (long)ERA * 146097 && z < ((long)ERA + 1) * 146097 && z >= ZMIN && z <= ZMAX);
+  int y; unsigned m, d; ymd_from_local(z, &y, &m, &d);
+  VF_ASSERT(s_exists(y, m, d), "year_month_day{local_days} yields an existing date inside the year range");
+  VF_ASSERT(spec_days(y, m, d) == z, "year_month_day{local_days} agrees with the proleptic Gregorian calendar");
+  VF_ASSERT(wd_from_local(z) == (unsigned)fmodc(z + 4, 7, 2000000), "weekday{local_days{z}} == (z + 4) mod 7");
+  VF_REACH(); }
